@@ -5,7 +5,7 @@ Finalize), tdx/mrtd_from_ovmf.go (regionsForShape, machineTypeToRAMBanks, Launch
 tdx/endorsement.go (generateAllPossibleMRTDs / UnsignedTDX).  The hash is a parameter `H`.  Core-only.
 -/
 namespace GceTcb.Mrtd
-open GceTcb GceTcb.Codec GceTcb.Codecs GceTcb.TdxGuidTable GceTcb.Intervals GceTcb.TdxMeta GceTcb.TdxHob
+open GceTcb GceTcb.Codec GceTcb.Codecs GceTcb.Intervals GceTcb.TdxMeta GceTcb.TdxHob
 
 /-- the bytes of an ASCII string (kernel-reducible, unlike `String.toUTF8`) -/
 def asciiBytes (s : String) : Bytes := s.toList.map (fun c => UInt8.ofNat c.toNat)
